@@ -132,6 +132,42 @@ def make_problem(rng, cmode=None, amode=None, int_y=False, empty_rows=False, nea
     return prob
 
 
+def make_naps_problem(rng):
+    """Array-valued `n_annotators_per_sample` that is shorter than the ranking: all annotators available for every
+    candidate, a non-constant array of length 1..3 and a batch that reaches at least two ranked samples beyond it."""
+    m = rng.randint(2, 4)
+    L = rng.randint(1, 3)
+    while True:
+        arr = [rng.randint(1, m) for _ in range(L)]
+        last = arr[-1]
+        if L == 1 or len(set(arr)) > 1:
+            break
+    if L >= 2 and arr[0] == last:
+        arr[0] = last % m + 1                      # cycling through the array differs from repeating the last entry
+    n_cand = rng.randint(L + 2, L + 4)
+    nS = max(n_cand, rng.randint(3, 7))
+    X = [[rng.randint(-8, 8) / 4.0, rng.randint(-8, 8) / 4.0] for _ in range(nS)]
+    y = [[(None if rng.random() < 0.6 else rng.randint(0, 1)) for _ in range(m)] for _ in range(nS)]
+    y[0][0] = 0
+    y[1][0] = 1
+    kind = rng.choice(["idx", "feat", "none-idx"])
+    if kind == "idx":
+        cmode, amode, cand, annot = "idx", "none", sorted(rng.sample(range(nS), n_cand)), None
+    elif kind == "feat":
+        cmode, amode, annot = "feat", "none", None
+        cand = [[rng.randint(-8, 8) / 4.0, rng.randint(-8, 8) / 4.0] for _ in range(n_cand)]
+    else:
+        cmode, amode, cand, annot = "none", "idx", None, list(range(m))
+        n_cand = nS
+    beyond = rng.randint(2, max(2, min(3, n_cand - L)))      # ranked samples beyond the array
+    b = sum(arr) + last * beyond - rng.choice([0, 0, last - 1])
+    prob = dict(X=X, y=y, cmode=cmode, amode=amode, candidates=cand, annotators=annot, int_y=False,
+                batch_size=int(max(1, b)), naps=arr, seed=rng.randrange(2**31 - 1))
+    ap = rng.random()
+    prob["A_perf"] = None if ap < 0.6 else [rng.randint(0, 4) / 4.0 for _ in range(m)]
+    return prob
+
+
 def arrays(prob):
     """numpy arguments of the real call."""
     X = np.array(prob["X"], dtype=float)
@@ -462,6 +498,16 @@ def canon_pairs(Q):
 # the property oracle (on real outputs only)
 
 
+def documented_pref(naps, n_ranked):
+    """`n_annotators_per_sample` as documented, for `n_ranked` ranked samples: (vector, class of the request)."""
+    if isinstance(naps, int):
+        return [naps] * n_ranked, "int"
+    arr = [int(x) for x in naps]
+    if len(arr) >= n_ranked:
+        return arr[:n_ranked], "array-covers-ranking"
+    return arr + [arr[-1]] * (n_ranked - len(arr)), "array-shorter-than-ranking"
+
+
 def oracle(ctx, cls, prob, res, inner_name=None, selectable_only=False):
     """Checks exactly what C07 states.  `selectable_only`: IntervalEstimationThreshold outside its
     documented domain (available pairs = pairs of samples whose annotators are all available)."""
@@ -516,24 +562,36 @@ def oracle(ctx, cls, prob, res, inner_name=None, selectable_only=False):
                     bad = ("utilities-not-nan", f"utilities[{t}] is a number at the unavailable / already selected pair {tuple(int(x) for x in w)}")
                     break
     if bad is None and cls == "SingleAnnotatorWrapper" and res.get("inner_ok"):
-        # n_annotators_per_sample respected whenever enough annotators are available: every sample the inner
-        # strategy chose can take its requested number and the requests fill the batch
+        # n_annotators_per_sample respected whenever enough annotators are available.  The requested vector is
+        # computed here from the *documented* rule (never taken from the code): an int applies to every ranked
+        # sample; an array gives the number for the i-th ranked sample, is cut to the ranking and, when shorter,
+        # extended by repeating its LAST entry.  Applicable when every ranked sample has at least its requested
+        # number of available annotators and the requests fill the batch (otherwise the code must raise them).
         c = res["inner_samples"]
-        pref = res["pref"]
+        pref, pclass = documented_pref(prob["naps"], len(c))
         nmax = [sum(1 for (s, j) in pairs if s == cs) for cs in c]
-        if len(pref) == len(c) and all(n >= p for n, p in zip(nmax, pref)) and sum(pref) >= k:
-            ctx.count("naps_oracle_applicable")
+        if all(n >= p for n, p in zip(nmax, pref)) and sum(pref) >= k:
+            ctx.count("naps_oracle_applicable_" + pclass)
             left = k
-            exp = {}
+            exp = []
             for cs, p in zip(c, pref):
                 take = min(p, left)
-                exp[cs] = take
+                if take:
+                    exp.append((cs, take))
                 left -= take
-            cnt = {}
+            groups = []        # consecutive same-sample groups of the returned pairs
             for (s, j) in got:
-                cnt[s] = cnt.get(s, 0) + 1
-            if {s: n for s, n in exp.items() if n} != cnt:
-                bad = ("n-annotators-per-sample", f"annotators per sample {cnt}, requested {exp} (inner order {c}, pref {pref})")
+                if groups and groups[-1][0] == s:
+                    groups[-1][1] += 1
+                else:
+                    groups.append([s, 1])
+            groups = [(s, n) for s, n in groups]
+            if groups != exp:
+                bad = (
+                    "n-annotators-per-sample/" + pclass,
+                    f"annotators per ranked sample {groups}, requested {exp} (inner ranking {c}, "
+                    f"n_annotators_per_sample={prob['naps']} -> documented preference {pref})",
+                )
     if bad:
         ctx.violate(f"{keyb}/{bad[0]}", f"{cls}.query ({inner_name}): {bad[1]}", replay)
 
@@ -748,6 +806,10 @@ def correspond(ctx):
             inner = rng.choice(SLOW_INNER)
         assert inner in F
         wrapper_case(ctx, lines, expect, prob, inner)
+    # array-valued n_annotators_per_sample shorter than the ranking, all annotators available
+    for i in range(60 if not ctx.thorough else 600):
+        prob = make_naps_problem(rng)
+        wrapper_case(ctx, lines, expect, prob, "RandomSampling" if i % 3 == 0 else FAST_INNER[i % len(FAST_INNER)])
     # int-valued y with missing_label=-1 (RandomSampling ignores the labels)
     for i in range(40 if not ctx.thorough else 300):
         c, a = combos[i % 9]
@@ -836,7 +898,9 @@ def search(ctx):
     n_timeouts = 0
     for i in range(budget):
         r = i % 4
-        if r == 0:
+        if i % 6 == 5:
+            prob = make_naps_problem(rng)
+        elif r == 0:
             prob = make_problem(rng, "none", "idx", int_y=(i % 8 == 0), near_pairs=True)
         elif r == 1 and n_timeouts < 3:
             prob = make_problem(rng, rng.choice(["none", "idx", "feat"]), "mat", empty_rows=True, near_pairs=rng.random() < 0.5)
